@@ -260,3 +260,25 @@ def corpus_forest():
               rows=[[1, "k1", 10, 1, "a", 1, "k1"], [2, "k2", 20, 0, "b", 1, "k1"], [3, "k3", 5, 1, "a", 2, "k2"], [4, "k4", 1, None, "a", None, None]])
     pr = dict(name="mc", composite=False, rels=[], rows=[[1, "k1", 3, 1, "p", 1, "k1"], [2, "k2", 4, 1, "q", None, None], [3, "k3", 5, 0, "q", 99, "k99"]])
     return dict(models=[cu, od, pr], links=[])
+
+
+# names where one is the tail / head of another, or looks like a generated alias: nothing may depend on how models are called
+CONTAINED_NAMES = {"ma": "items", "mb": "line_items", "mc": "order_line_items", "md": "itemsx", "me": "items_raw"}
+
+
+def rename_case(f, q, mapping=None):
+    """the same forest and query under other model names (deep copy)"""
+    import copy
+    mapping = mapping or CONTAINED_NAMES
+    g = copy.deepcopy(f)
+    for m in g["models"]:
+        m["name"] = mapping.get(m["name"], m["name"])
+        for r in m["rels"]:
+            r["name"] = mapping.get(r["name"], r["name"])
+            if r.get("through"):
+                r["through"] = mapping.get(r["through"], r["through"])
+    q2 = copy.deepcopy(q)
+    q2["dims"] = [(mapping.get(m, m), e) for m, e in q["dims"]]
+    q2["mets"] = [(mapping.get(m, m), a, e, fl) for m, a, e, fl in q["mets"]]
+    q2["filters"] = [(mapping.get(m, m), e) for m, e in q["filters"]]
+    return g, q2
